@@ -80,7 +80,8 @@ class Fault:
 
     @staticmethod
     def from_json(d):
-        return Fault(d["op"], d["step"], d["mode"], d.get("err", "EIO"))
+        return Fault(d.get("op", -1), d["step"], d["mode"],
+                     d.get("err", "EIO"))
 
 
 class SimRaw(io.RawIOBase):
